@@ -1,5 +1,5 @@
 (* Extraction for the C08 correspondence driver (ExtrOcamlBasic only; nat and N stay
    the extracted inductive types; no Extract Constant). *)
 From Coq Require Import Extraction ExtrOcamlBasic NArith ZArith List.
-From AHK Require Import Model.Disp.
-Separate Extraction Z.of_N Z.to_N N.of_nat N.to_nat init step run_steps.
+From AHK Require Import Model.Disp Model.DispConn.
+Separate Extraction Z.of_N Z.to_N N.of_nat N.to_nat init step run_steps cinit cstep crun_steps.
